@@ -301,7 +301,14 @@ func (dispatcher) Read(p []byte) (int, error) {
 	if t == nil {
 		panic(sentNoTape)
 	}
-	return t.Read(p)
+	n, err := t.Read(p)
+	// The random source is a seam the simulator owns: in controlled-interleaving mode the
+	// caller is parked after the bytes have been delivered and before it decodes them, so a
+	// buffer shared between callers (instead of one per draw) is overwritten by whoever runs next.
+	if s := simr.sched; s != nil {
+		s.yield("tape.Read:afterFill")
+	}
+	return n, err
 }
 
 func installSimulator() {
